@@ -16,11 +16,11 @@ HARNESS="${DLTVERIF_HARNESS_DIR:-$ROOT/harness}"; FUZZ="${DLTVERIF_FUZZ_DIR:-$RO
 BIN="$HARNESS/target/release/dltverif"
 # target:runs-per-process:max_len:extra libFuzzer flags
 case "$PROP" in
-  C02) PLAN="bytes:1500000:4096: strat:150000:2048:";;
+  C02) PLAN="bytes:1500000:4096: strat:80000:2048:";;
   C03|C04|C16) PLAN="bytes:1500000:4096:";;
   C12) PLAN="fibex:150000:8192:-timeout=5";;
   C13) PLAN="args:2000000:256:";;
-  C01|C06|C15) PLAN="strat:150000:2048:";;
+  C01|C06|C15) PLAN="strat:80000:2048:";;
   C05) PLAN="strat:30000:2048:";;   # every execution enumerates all cut positions of its message (about 40 exec/s under ASan)
   C07|C08|C10) PLAN="strat:60000:2048:";;
   C09) PLAN="strat:500000:1024:";;
